@@ -1,4 +1,5 @@
 import WfProofs.CliConfig
+import WfProofs.CliConfigHistory
 /-!
 # C37 — llamactl never activates a profile the user did not pick in that environment
 
@@ -163,3 +164,85 @@ theorem C37_each_clear_needed :
                 .envAdd Gen.CliConfig.defaultUrl true none]).2
                 ⟨0, "default", Gen.CliConfig.defaultUrl, "p", none, none, none⟩ (by decide)
     exact absurd this.2.2 (by decide)
+
+/-! ## Whole-history statements added by the extension -/
+
+/-- Profile ids (`idx_profiles_id`, the uuid of the code, the creation counter of the model) are
+pairwise different after every history, and all lie below the creation counter: "the profile with
+id `i`" names at most one row, in whatever environment. -/
+theorem C37_unique_ids (ops : List Op) :
+    ((run srcCfg (init srcCfg) ops).profiles.map (·.pid)).Nodup ∧
+    ∀ p ∈ (run srcCfg (init srcCfg) ops).profiles, p.pid < (run srcCfg (init srcCfg) ops).nextId := by
+  have h := ids_run srcCfg ops _ (ids_init srcCfg)
+  refine ⟨?_, h.fresh⟩
+  rw [List.Nodup, List.pairwise_map]
+  exact h.nodup
+
+example : ((run srcCfg (init srcCfg)
+    [.createToken "p1" none, .envAdd "http://b" false none, .createToken "p2" none, .deleteProfile "default",
+     .createToken "p3" none, .destroy, .createToken "p4" none]).profiles.map (·.pid)) = [3] := by decide
+
+/-- **The active profile is the very row the latest pick designated, and has been active ever since.**
+If a profile `p` is active after a history, the history splits as `pre ++ op :: post` where `op` is a
+pick event of `p`'s name made while `p`'s environment was current, and from the state right after
+`op` through every later state (`Kept`, spelled out by `C37_kept_means`): `p`'s environment is the
+current one, the row with `p`'s id, name and environment is the active profile, and no further
+operation is a pick event.  So between the pick and now there was no moment at which another
+environment was current, another profile (or none) was active, or the id behind the name changed
+(e.g. by deleting and re-creating a same-named profile). -/
+theorem C37_active_continuously_since_pick (ops : List Op) (p : Profile)
+    (h : active (run srcCfg (init srcCfg) ops) = some p) :
+    ∃ pre op post, ops = pre ++ op :: post ∧
+      picks srcCfg (run srcCfg (init srcCfg) pre) op = some p.name ∧
+      (run srcCfg (init srcCfg) pre).curEnv = p.env ∧
+      Kept srcCfg p.name p.env p.pid (step srcCfg (run srcCfg (init srcCfg) pre) op).1 post := by
+  rcases active_since C37_source_shape.1 ops _ (inv_init C37_source_shape.1) p h with hk | hex
+  · obtain ⟨_, q, hq, _⟩ := hk.head
+    simp [active, init] at hq
+  · exact hex
+
+/-- non-vacuity: a profile selected, then seven operations that are no pick events and change
+neither the environment nor the selection (among them a token refresh by id, a probe, deleting
+another environment and another profile); it is kept active throughout. -/
+example : Kept srcCfg "default" "http://b" 1
+    (run srcCfg (init srcCfg) [.createToken "p1" none, .envAdd "http://b" false none, .createToken "p2" none,
+       .createOidc "p3" "u1" "a@x.io" "t0", .select "default"])
+    [.setProject "default" "p9", .refresh 2 "u1" "t1", .probe true none, .envDelete Gen.CliConfig.defaultUrl,
+     .deleteProfile "a@x.io", .updateKey "default" (some "k") none, .envSwitch "http://nowhere"] := by
+  decide
+
+/-- What `Kept` says, with explicit quantifiers: at every cut `mid ++ rest` of the operations the
+environment `e` is current and the row `(pid, n, e)` is the active profile, and the operation
+following the cut (if any) is no pick event. -/
+theorem C37_kept_means (n e : String) (pid : Nat) (s : State) (ops : List Op) :
+    Kept srcCfg n e pid s ops ↔
+      ∀ mid rest, ops = mid ++ rest →
+        (run srcCfg s mid).curEnv = e ∧
+        (∃ q, active (run srcCfg s mid) = some q ∧ q.pid = pid ∧ q.name = n ∧ q.env = e) ∧
+        ∀ o rest', rest = o :: rest' → picks srcCfg (run srcCfg s mid) o = none := by
+  rw [kept_iff]
+  constructor
+  · intro h mid rest hmr; exact ⟨(h mid rest hmr).1.1, (h mid rest hmr).1.2, (h mid rest hmr).2⟩
+  · intro h mid rest hmr; exact ⟨⟨(h mid rest hmr).1, (h mid rest hmr).2.1⟩, (h mid rest hmr).2.2⟩
+
+example : ¬ Kept srcCfg "default" Gen.CliConfig.defaultUrl 0
+    (run srcCfg (init srcCfg) [.createToken "p1" none]) [.deleteProfile "default", .createToken "p2" none] := by
+  decide
+
+/-- **`get_current_environment()` never makes up an environment.**  After every history what it
+returns has the current URL and is either a stored row or — only when the default URL is current
+and has no row — the built-in `DEFAULT_ENVIRONMENT`; its third branch (an unauthenticated
+`Environment` invented for a URL that is neither stored nor the default) is dead code on all
+reachable configurations. -/
+theorem C37_current_environment_real (ops : List Op) :
+    (currentEnvironment srcCfg (run srcCfg (init srcCfg) ops)).url = (run srcCfg (init srcCfg) ops).curEnv ∧
+    (currentEnvironment srcCfg (run srcCfg (init srcCfg) ops) ∈ (run srcCfg (init srcCfg) ops).envs ∨
+     (getEnv (run srcCfg (init srcCfg) ops) (run srcCfg (init srcCfg) ops).curEnv = none ∧
+      (run srcCfg (init srcCfg) ops).curEnv = Gen.CliConfig.defaultUrl ∧
+      currentEnvironment srcCfg (run srcCfg (init srcCfg) ops) =
+        ⟨Gen.CliConfig.defaultUrl, Gen.CliConfig.defaultRequiresAuth, none⟩)) :=
+  currentEnvironment_real (inv_run C37_source_shape.1 ops _ (inv_init C37_source_shape.1))
+
+/-- non-vacuity of the second alternative: the default row deleted while current. -/
+example : getEnv (run srcCfg (init srcCfg) [.envDelete Gen.CliConfig.defaultUrl, .createToken "p" none])
+    Gen.CliConfig.defaultUrl = none := by decide
